@@ -14,7 +14,10 @@ Ops (see `harness/go/cmd/c06`):
   drain                                → drained to=<ids|-> | panic negative-waitgroup
   idle ms=<n>                          → to=<ids|->            (real time passes, mock time does not)
   tick-hold                            → to=<ids|-> log=<events|-> held=<id|->   (gate `queue.before-repush`)
-  tick-release                         → log=<events|->        (only while held)
+  tick-release                         → to=<ids|-> log=<events|->   (only while held; loop first, then the watcher)
+  advance ms=<n>                       → ok                    (only while held: mock clock moves, no loop timer pending)
+ level L1 (the shared queue alone; a case starting with `qnew`):
+  qnew → ok | q-enq id=<k> prio=<p> → ok | q-deq → <id>|- | q-rm id=<k> → ok | q-size → <n>
   await bound=<ms>    (mode=real only) → blocked=<ids|-> within=1
 -/
 open LunarVerif LunarVerif.Proto LunarVerif.C06
@@ -78,6 +81,7 @@ structure RunSt where
   drained : Bool := false
   dead : Bool := false
   held : Bool := false       -- the loop stands at the gate before a re-push
+  q : Option QSt := none     -- level L1: the shared queue alone
 
 def RunSt.s (st : RunSt) : St := st.x.s
 def RunSt.op (st : RunSt) (op : Op) : RunSt := { st with x := applyOp st.cfg st.x op }
@@ -90,7 +94,7 @@ def fmtLog (evs : List Ev) : String :=
     | .pop i => some s!"d:{i}"
     | .qtry i true => some s!"i:{i},a:{i}:1"
     | .qtry i false => some s!"i:{i},a:{i}:0,x:{i}"
-    | .repush i => some s!"e:{i}"
+    | .repush i _ => some s!"e:{i}"
     | .done i true _ => some s!"v:{i}"
     | _ => none)
 
@@ -105,18 +109,36 @@ def runStep (st : RunSt) (line : String) : RunSt × String :=
   match words line with
   | ["case", id] => ({}, s!"case {id}")
   | "lock" :: ws => (st, lockAnswer ws)
+  | ["qnew"] => if st.ready || st.q.isSome then (st, "bad-op") else ({ st with q := some {} }, "ok")
+  | "q-enq" :: ws =>
+    match st.q, kvNat ws "id", kvNat ws "prio" with
+    | some q, some id, some p => ({ st with q := some (q.enq id p) }, "ok")
+    | _, _, _ => (st, "bad-op")
+  | ["q-deq"] =>
+    match st.q with
+    | some q => let (q', r) := q.deq; ({ st with q := some q' }, match r with | some id => toString id | none => "-")
+    | none => (st, "bad-op")
+  | "q-rm" :: ws =>
+    match st.q, kvNat ws "id" with
+    | some q, some id => ({ st with q := some (q.rm id) }, "ok")
+    | _, _ => (st, "bad-op")
+  | ["q-size"] =>
+    match st.q with
+    | some q => (st, toString q.heap.length)
+    | none => (st, "bad-op")
   | "cfg" :: ws =>
     if st.ready then (st, "bad-op") else
     match parseCfg ws with
     | some (cfg, t0, real) =>
-      if real && cfg.qmax != 0 then (st, "bad-op")
+      if st.q.isSome then (st, "bad-op") else
+    if real && cfg.qmax != 0 then (st, "bad-op")
       else ({ cfg := cfg, x := { s := St.init t0 }, ready := true, real := real }, "ok")
     | none => (st, "bad-op")
   | op :: ws =>
     if !st.ready then (st, "bad-op")
     else if st.dead then (st, "dead")
     else if st.drained then (st, "bad-op")
-    else if st.held && op != "arrive" && op != "tick-release" && op != "idle" then (st, "bad-op")
+    else if st.held && op != "arrive" && op != "tick-release" && op != "idle" && op != "advance" then (st, "bad-op")
     else
     let n0 := st.s.trace.length
     match op with
@@ -160,7 +182,16 @@ def runStep (st : RunSt) (line : String) : RunSt × String :=
     | "tick-release" =>
       if !st.held || !ws.isEmpty then (st, "bad-op") else
       let st' := st.op .tickRelease
-      ({ st' with held := false }, s!"log={fmtLog (newEvents st'.s n0)}")
+      let evs := newEvents st'.s n0
+      ({ st' with held := false }, s!"to={fmtIds (timeouts evs)} log={fmtLog evs}")
+    | "advance" =>
+      match kvNat ws "ms" with
+      | some ms =>
+        -- only the request the loop holds may run out of TTL by the jump
+        let others := idsWhere st.s fun r =>
+          r.pc == .parked && r.st == .enqueued && decide (r.arrival + st.cfg.ttl < st.s.now + ms)
+        if !st.held || ms > 10000 || !others.isEmpty then (st, "bad-op") else (st.op (.advance ms), "ok")
+      | none => (st, "bad-op")
     | "hold-remove" =>
       if st.real then (st, "bad-op") else (st.op .holdRemove, "ok")
     | "flush-remove" =>
@@ -195,12 +226,16 @@ structure JudgeSt where
   pend : List (Nat × Nat × Nat) := []   -- at the gate: (id, prio, arrival)
   hist : List Ev := []                  -- most recent first
   late : Bool := false                  -- mode=real: a time-out missed its wall-clock bound
+  stuck : Bool := false                 -- the harness gave up waiting for something (answer contains `stuck`)
+  qh : List QEv := []                   -- level L1 history, most recent first
+  isQ : Bool := false
+  settled : Bool := true                -- the TTL watcher had its chance since the clock last moved
   bad : Option String := none
 
 def JudgeSt.push (s : JudgeSt) (es : List Ev) : JudgeSt := { s with hist := es.reverse ++ s.hist }
 
 def parseIds (w : String) : Option (List Nat) :=
-  if w == "-" then some [] else (w.splitOn ",").mapM String.toNat?
+  if w == "-" then some [] else ((w.splitOn ",").filter fun t => !t.startsWith "stuck").mapM String.toNat?
 
 /-- A verdict observed for `i`: the `done` event and — unless removals are held — the slot release. -/
 def JudgeSt.verdict (s : JudgeSt) (i : Nat) (ok : Bool) : JudgeSt :=
@@ -214,13 +249,16 @@ def parseLogItem (s : JudgeSt) (w : String) : Option JudgeSt :=
   | ["x", _] => some s
   | ["a", i, "1"] => i.toNat?.map fun i => s.push [.qtry i true]
   | ["a", i, "0"] => i.toNat?.map fun i => s.push [.qtry i false]
-  | ["e", i] => i.toNat?.map fun i => s.push [.repush i]
+  | ["e", i] => i.toNat?.map fun i => s.push [.repush i s.now]
+  | ["stuck"] => some { s with stuck := true }
+  | ["stuck-removal"] => some { s with stuck := true }
   | ["v", i] => i.toNat?.map fun i => s.verdict i true
   | _ => none
 
 def judgeStep (s : JudgeSt) (op out : String) : JudgeSt :=
   if s.bad.isSome then s else
   let fail (m : String) : JudgeSt := { s with bad := some (m ++ ":" ++ pctEnc op ++ ":" ++ pctEnc out) }
+  let s := if (out.splitOn "stuck").length > 1 then { s with stuck := true } else s
   let ows := words out
   if ows.head? == some "panic" && (words op).head? != some "drain" then s.push [.panic] else
   match words op with
@@ -248,14 +286,37 @@ def judgeStep (s : JudgeSt) (op out : String) : JudgeSt :=
       | none => fail "not-at-gate"
     | _, "bad-op" => s
     | _, _ => fail "unparsable"
+  | "advance" :: ws =>
+    match kvNat ws "ms" with
+    | some ms => if out == "ok" then { s with now := s.now + ms, settled := false } else s
+    | none => s
+  | ["qnew"] => { s with isQ := true }
+  | "q-enq" :: ws =>
+    match kvNat ws "id", kvNat ws "prio" with
+    | some id, some p => if out == "ok" then { s with qh := .enq id p :: s.qh } else s
+    | _, _ => s
+  | "q-rm" :: ws =>
+    match kvNat ws "id" with
+    | some id => if out == "ok" then { s with qh := .rm id :: s.qh } else s
+    | none => s
+  | ["q-deq"] =>
+    if out == "-" then { s with qh := .deq none :: s.qh }
+    else match out.toNat? with
+      | some id => { s with qh := .deq (some id) :: s.qh }
+      | none => if out == "bad-op" then s else fail "unparsable"
+  | ["q-size"] =>
+    match out.toNat? with
+    | some n => { s with qh := .size n :: s.qh }
+    | none => if out == "bad-op" then s else fail "unparsable"
   | ["tick-release"] =>
-    match kv ows "log" with
-    | some lg =>
-      if lg == "-" then s else
-      match (lg.splitOn ",").foldlM parseLogItem s with
-      | some s3 => s3
+    match kv ows "to" >>= parseIds, kv ows "log" with
+    | some ids, some lg =>
+      let s := { s with settled := true }
+      let s2 := if lg == "-" then some s else (lg.splitOn ",").foldlM parseLogItem s
+      match s2 with
+      | some s3 => ids.foldl (fun s i => s.verdict i false) s3
       | none => fail "unparsable"
-    | none => if out == "bad-op" || out == "dead" then s else fail "unparsable"
+    | _, _ => if out == "bad-op" || out == "dead" then s else fail "unparsable"
   | [tk] =>
     if tk != "tick" && tk != "tick-hold" then
       (if tk == "hold-remove" then (if out == "ok" then { s with hold := true } else s)
@@ -315,9 +376,12 @@ def judgeFinish (s : JudgeSt) : String :=
   | some b => s!"fail - {b}"
   | none =>
     let h := s.hist.reverse
-    if s.late then "fail - ttl-wall-clock-bound-missed"
-    else if holds s.cfg h then "ok"
-    else s!"fail - {firstBad s.cfg h}"
+    if s.isQ then (if qHolds s.qh.reverse then "ok" else "fail - shared-queue-dequeue-not-a-minimum")
+    else if s.late then "fail - ttl-wall-clock-bound-missed"
+    else if !holds s.cfg h then s!"fail - {firstBad s.cfg h}"
+    else if s.settled && !endOk s.cfg s.hist s.now then "fail - waiter-without-verdict-beyond-ttl-at-end"
+    else if s.stuck then "fail - harness-gave-up-waiting(stuck)"
+    else "ok"
 
 def main (args : List String) : IO Unit :=
   match args with
